@@ -65,7 +65,9 @@ class Estimandizer:
 
             baseline_col = f"{BASELINE_PREFIX}{pointer}"
 
-            if baseline_col not in data_df.columns:
+            # margin also redefines baseline_weights (two party turnout), which add_weights has just reset. So it is
+            # recomputed even when an earlier call already left baseline_margin on this (caller owned) dataframe
+            if baseline_col not in data_df.columns or estimand == "margin":
                 data_df, __ = globals()[estimand](data_df, BASELINE_PREFIX)
 
             if not historical:
